@@ -286,3 +286,18 @@ PROPS["C20"]["rule"] += (" ; defaults engine: dht.DefaultSendLimiter reassigned 
 # abandonment window, duplicated replies, ...) are those of the query engine, whose node-down lines count for C16 (see above)
 PROPS["C16"]["engines"] = PROPS["C16"]["engines"] + ["query"]
 PROPS["C16"]["rule"] += " ; query engine: single-query schedules (see C14); a node found dead or wedged there cannot finish an announce"
+
+# bep44 engine, items produced and reused through the exported API (harness/cmd/h/bep44_api.go)
+_B44API_RULE = (" ; bep44 engine, application-made items (bep44_api.go): the *Item of a put is produced by a route - struct literal / NewItem (private key or "
+                "nil) / NewItem + one or two Modify / Item.ToPut + Put.ToItem / Put literal + Put.Sign + Put.ToItem, starting from a genuine item that "
+                "differs from the one that is put in V (other value, same-length value, oversized value), Salt, Seq, K, Cas or several of them; used "
+                "(Check, Item.Target, Put.Target, CheckIncoming, a put into another wrapper and store) before and/or after the exported fields are "
+                "assigned (any order; salt and list / dictionary values also in place), on the item or on a struct copy taken at any of three points; "
+                "the same *Item changed and put again (a struct copy where the store keeps the pointer), the item handed out by Wrapper.Get changed "
+                "and put back, Modify with the right / a wrong key, signed again by the caller. Check / Target / CheckIncoming lines, Wrapper.Put "
+                "histories over bep44.Memory (also with store faults) and the four copying / rebuilding stores, concurrent puts, and a real Server "
+                "sharing the store (the application's own Wrapper, Server.Put of Item.ToPut(), wire gets): the printed line carries the exported "
+                "fields at the time of the call, so the model and the reference verifier decide as for a literal; what Wrapper.Get hands out and "
+                "what a get reply carries must verify under the requested target (oracles forged-item-served, oversized-served:*, wrong-target:served)")
+PROPS["C12"]["rule"] += _B44API_RULE
+PROPS["C13"]["rule"] += " ; bep44 engine: the same histories with items produced and reused through the exported API (see C12, bep44_api.go)"
